@@ -63,6 +63,18 @@ type VC struct {
 	usedTrusted map[string]bool
 	inlined     map[string]bool
 	callCount   map[string]int
+	extraDecls  []string
+	pre         [2]string // SMT preamble in this VC's float mode (without / with the multiset axiom)
+}
+
+func (vc *VC) preambleFor(withMS bool) string {
+	if vc.pre[0] == "" {
+		vc.pre[0], vc.pre[1] = vc.e.preamble(false), vc.e.preamble(true)
+	}
+	if withMS {
+		return vc.pre[1]
+	}
+	return vc.pre[0]
 }
 
 func (e *Engine) newVC(fn *ssa.Function, fc *FuncContract) *VC {
@@ -237,7 +249,8 @@ func (vc *VC) store(st *State, lv *LVal, v Val) {
 			cur := vc.sv(st, name, sort)
 			st.m[name] = Sto(cur, lv.Obj, v.Leaves[i])
 		case LElem:
-			cur := vc.sv(st, name, sort)
+			// name the current memory first: Sto2 mentions it twice, and nested updates would grow exponentially
+			cur := vc.define(name, sort, vc.sv(st, name, sort))
 			st.m[name] = Sto2(cur, lv.Base, lv.Idx, v.Leaves[i])
 		}
 	}
@@ -301,7 +314,7 @@ func (vc *VC) script(o *Obl, withModel bool) string {
 		sb.WriteString("; clause: " + strings.ReplaceAll(o.Src, "\n", " ") + "\n")
 	}
 	sb.WriteString("(set-option :produce-models true)\n(set-logic ALL)\n")
-	sb.WriteString(vc.e.preamble(vc.usesMS(o.CtxLen, o.Goal)))
+	sb.WriteString(vc.preambleFor(vc.usesMS(o.CtxLen, o.Goal)))
 	for _, c := range vc.cmds[:o.CtxLen] {
 		sb.WriteString(c)
 		sb.WriteByte('\n')
@@ -333,17 +346,40 @@ func (e *Engine) preamble(withMS bool) string {
 		names = append(names, n)
 	}
 	sort.Strings(names)
+	mode := "fp"
+	if e.FloatSort == "Real" {
+		mode = "real"
+	}
+	defined := map[string]bool{}
+	for _, d := range e.SmtDefs {
+		if d.Mode == "" || d.Mode == mode {
+			if fs := strings.Fields(strings.TrimPrefix(strings.TrimPrefix(d.Text, "(define-fun-rec"), "(define-fun")); len(fs) > 0 {
+				defined[fs[0]] = true
+			}
+		}
+	}
 	for _, n := range names {
 		u := e.UFuncs[n]
-		sb.WriteString("(declare-fun " + u.Name + " (" + strings.Join(u.Args, " ") + ") " + u.Ret + ")\n")
+		if defined[n] {
+			continue
+		}
+		sb.WriteString("(declare-fun " + u.Name + " (" + e.floatSorts(strings.Join(u.Args, " ")) + ") " + e.floatSorts(u.Ret) + ")\n")
 	}
 	sb.WriteString("(declare-fun msOfF ((Array Int " + e.FloatSort + ") Int Int) MSet)\n(declare-fun msOfI ((Array Int Int) Int Int) MSet)\n")
 	if withMS {
 		sb.WriteString("(assert (forall ((a (Array Int " + e.FloatSort + ")) (oa Int) (b (Array Int " + e.FloatSort + ")) (ob Int) (n Int)) (! (=> (forall ((k Int)) (=> (and (<= 0 k) (< k n)) (= (select a (+ oa k)) (select b (+ ob k))))) (= (msOfF a oa n) (msOfF b ob n))) :pattern ((msOfF a oa n) (msOfF b ob n)))))\n")
 	}
 	sb.WriteString("(declare-fun f2i (" + e.FloatSort + ") Int)\n")
+	if e.FloatSort == "Real" {
+		sb.WriteString("(declare-const real.posInf Real)\n(declare-const real.negInf Real)\n")
+	}
 	sb.WriteString("(declare-fun strcat (Int Int) Int)\n(declare-fun strlen (Int) Int)\n")
 	sb.WriteString("(declare-fun isNaN (" + e.FloatSort + ") Bool)\n")
 	sb.WriteString("(declare-fun fmulU (" + e.FloatSort + " " + e.FloatSort + ") " + e.FloatSort + ")\n")
+	for _, d := range e.SmtDefs {
+		if d.Mode == "" || d.Mode == mode {
+			sb.WriteString(e.floatSorts(d.Text) + "\n")
+		}
+	}
 	return sb.String()
 }
